@@ -69,6 +69,8 @@ class Contract:
         self.pure = bool(d.get('pure', False))
         self.assume_at_call = tuple(d.get('assume_at_call', ()))
         self.tier = d.get('tier', 'quick')
+        ap = d.get('applies')
+        self.applies = ap.__func__ if isinstance(ap, staticmethod) else ap
         self.inline = bool(d.get('inline', False))
         self.frame_on_raise = bool(d.get('frame_on_raise', True))
         self.allowed = tuple(resolve_exception(x) if isinstance(x, str) else x for x in d.get('allowed', ()))
